@@ -102,7 +102,9 @@ def gen_scenario(rnd):
         end = rnd.choice(["commit", "commit", "commit", "optimize", "nomerge", "cancel", "with-error", "with-ok"])
         steps.append({"ops": ops, "end": end})
     return {"steps": steps, "compound": rnd.random() < 0.7, "crash_step": rnd.randrange(len(steps)) if rnd.random() < 0.5 else None,
-            "has_bad_add": any(op[0] == "bad_add" for st in steps for op in st["ops"])}
+            "has_bad_add": any(op[0] == "bad_add" for st in steps for op in st["ops"]),
+            # a tiny posting-pool budget makes the writer spill sorted runs to disk and merge them at commit
+            "limitmb": rnd.choice([None, None, None, 0.0004])}
 
 
 # ------------------------------------------------------------------ model
@@ -510,7 +512,7 @@ def run_scenario(sc, fails_out):
                         fails.append(("C03-reader-races-commit", "reader whose TOC read preceded an optimize commit failed: %s: %s" % (type(e).__name__, e)))
                 shutil.rmtree(root + "_c", ignore_errors=True)
             # ---------------- the real step
-            w = ix.writer(compound=sc["compound"])
+            w = ix.writer(compound=sc["compound"], **({"limitmb": sc["limitmb"]} if sc.get("limitmb") else {}))
             # C04: a second writer must fail while this one is open
             try:
                 w2 = ix.writer()
